@@ -170,13 +170,13 @@ peg::parser! {
             }
 
         rule limit_clause() -> Clause
-            = ci("LIMIT") _ n:integer() {
-                Clause::Limit(n.parse::<u32>().unwrap())
+            = ci("LIMIT") _ n:integer() {?
+                n.parse::<u32>().map(Clause::Limit).map_err(|_| "LIMIT must fit in u32")
             }
 
         rule offset_clause() -> Clause
-            = ci("OFFSET") _ n:integer() {
-                Clause::Offset(n.parse::<u32>().unwrap())
+            = ci("OFFSET") _ n:integer() {?
+                n.parse::<u32>().map(Clause::Offset).map_err(|_| "OFFSET must fit in u32")
             }
 
         rule order_clause() -> Clause
@@ -248,13 +248,13 @@ peg::parser! {
 
         // Accept integers and decimals; choose int when no dot for stable equality in tests
         rule number() -> Value
-            = n:$( ("-")? ['0'..='9']+ ( "." ['0'..='9']+ )? ) {
+            = n:$( ("-")? ['0'..='9']+ ( "." ['0'..='9']+ )? ) {?
                 if n.contains('.') {
-                    let f: f64 = n.parse::<f64>().unwrap();
-                    Value::Number(Number::from_f64(f).unwrap())
+                    let f: f64 = n.parse::<f64>().map_err(|_| "number")?;
+                    Number::from_f64(f).map(Value::Number).ok_or("number out of range")
                 } else {
-                    let i: i64 = n.parse::<i64>().unwrap();
-                    Value::Number(i.into())
+                    let i: i64 = n.parse::<i64>().map_err(|_| "integer out of range")?;
+                    Ok(Value::Number(i.into()))
                 }
             }
 
